@@ -677,6 +677,7 @@ package geom
 //@   requires [recv] typeof(self) == *Bounds ==> self.(*Bounds) != nil
 //@   ensures [polygon] typeof(self) == Polygon ==> len(result) == 1 && result[0] == self.(Polygon)
 //@   ensures [multi] typeof(self) == MultiPolygon ==> result == self.(MultiPolygon)
+//@   defines [region] prefR(self, 0) == rNone() && prefR(self, len(result)) == regionOf(self) && (forall k int :: 0 <= k && k < len(result) ==> prefR(self, k+1) == rCat(prefR(self, k), regionG(result[k])))
 //@   ensures [box] typeof(self) == *Bounds ==> len(result) == 1 && len(result[0]) == 1 && len(result[0][0]) == 4 && biteq(result[0][0][0], self.(*Bounds).Min) && biteq(result[0][0][1], Point(self.(*Bounds).Max.X, self.(*Bounds).Min.Y)) && biteq(result[0][0][2], self.(*Bounds).Max) && biteq(result[0][0][3], Point(self.(*Bounds).Min.X, self.(*Bounds).Max.Y))
 //@   modifies nothing
 
@@ -1058,3 +1059,71 @@ package geom
 //@   modifies nothing
 //@   loop 1 `for i, g := range gc`
 //@     invariant [members] t != nil && 0 <= #1 && #1 <= len(gc) && fresh(gc2) && len(gc2) == len(gc)
+
+//@ -- ------------------------------------------------- C01 / C14: clipper wrappers
+//@ opaque pred sameRing(a []Point, b polyclip.Contour) = len(a) == len(b) && (forall k int :: 0 <= k && k < len(a) ==> biteq(a[k].X, b[k].X) && biteq(a[k].Y, b[k].Y))
+//@ opaque pred closedCopy(b polyclip.Contour, a []Point) = len(a) == len(b) + 1 && (forall k int :: 0 <= k && k < len(b) ==> biteq(a[k].X, b[k].X) && biteq(a[k].Y, b[k].Y)) && biteq(a[len(b)], a[0])
+
+//@ func (p Polygon) toPolyClip
+//@   prop C01, C14
+//@   mode ufloat
+//@   ensures [same] fresh(result) && len(result) == len(p) && (forall i int :: 0 <= i && i < len(p) ==> fresh(result[i]) && sameRing(p[i], result[i]))
+//@   modifies nothing
+//@   loop 1 `for i, r := range p`
+//@     invariant [rings] 0 <= #1 && #1 <= len(p) && fresh(o) && len(o) == len(p) && (forall k int :: 0 <= k && k < #1 ==> fresh(o[k]) && sameRing(p[k], o[k]))
+//@   loop 2 `for j, pp := range r`
+//@     invariant [pts] 0 <= #2 && #2 <= len(r) && fresh(o) && len(o) == len(p) && fresh(o[#1]) && len(o[#1]) == len(r) && (forall k int :: 0 <= k && k < #1 ==> fresh(o[k]) && sameRing(p[k], o[k])) && (forall m int :: 0 <= m && m < #2 ==> biteq(o[#1][m].X, r[m].X) && biteq(o[#1][m].Y, r[m].Y))
+
+//@ func polyClipToPolygon
+//@   prop C01, C14
+//@   mode ufloat
+//@   requires [nonempty_contours] forall i int :: 0 <= i && i < len(p) ==> len(p[i]) >= 1
+//@   ensures [closed] fresh(result) && len(result) == len(p) && (forall i int :: 0 <= i && i < len(p) ==> fresh(result[i]) && closedCopy(p[i], result[i]))
+//@   modifies nothing
+//@   loop 1 `for i, r := range p`
+//@     invariant [rings] 0 <= #1 && #1 <= len(p) && fresh(pp) && len(pp) == len(p) && (forall k int :: 0 <= k && k < #1 ==> fresh(pp[k]) && closedCopy(p[k], pp[k]))
+//@   loop 2 `for j, ppp := range r`
+//@     invariant [pts] 0 <= #2 && #2 <= len(r) && len(r) >= 1 && fresh(pp) && len(pp) == len(p) && fresh(pp[#1]) && len(pp[#1]) == len(r) + 1 && (forall k int :: 0 <= k && k < #1 ==> fresh(pp[k]) && closedCopy(p[k], pp[k])) && (forall m int :: 0 <= m && m < #2 ==> biteq(pp[#1][m].X, r[m].X) && biteq(pp[#1][m].Y, r[m].Y))
+
+//@ -- Abstract regions (C01): integer ids of point sets; the algebra lives in the
+//@ -- trusted axioms below (A-REGION) and in the assumed contract of polyclip's
+//@ -- Construct (/verif/contracts/external/polyclip.spec). Region functions take
+//@ -- slice headers: they denote the region of the contents at the time the
+//@ -- clause is evaluated (inputs and results are not mutated afterwards).
+//@ spec regionG(p []Path) int
+//@ spec rCat(a int, b int) int
+//@ spec rNone() int
+//@ spec regionOf(g Polygonal) int
+//@ spec prefR(g Polygonal, k int) int
+//@ axiom region_same_rings(a []Path, b polyclip.Polygon)
+//@   trusted A-REGION: a region depends only on the vertex lists of its rings
+//@   requires len(a) == len(b) && (forall i int :: 0 <= i && i < len(a) ==> sameRing(a[i], b[i]))
+//@   ensures regionG(a) == pcRegion(b)
+//@ axiom region_closed_rings(b polyclip.Polygon, a []Path)
+//@   trusted A-REGION: repeating the first vertex at the end of a ring does not change its region
+//@   requires len(a) == len(b) && (forall i int :: 0 <= i && i < len(a) ==> closedCopy(b[i], a[i]))
+//@   ensures regionG(a) == pcRegion(b)
+//@ axiom region_concat(a polyclip.Polygon, b polyclip.Polygon, c polyclip.Polygon)
+//@   trusted A-REGION: the even-odd region of a concatenated contour list is the symmetric combination rCat of the parts
+//@   requires len(c) == len(a) + len(b) && (forall i int :: 0 <= i && i < len(a) ==> c[i] == a[i]) && (forall i int :: 0 <= i && i < len(b) ==> c[len(a)+i] == b[i])
+//@   ensures pcRegion(c) == rCat(pcRegion(a), pcRegion(b))
+//@ axiom region_nil(a polyclip.Polygon)
+//@   trusted A-REGION: no contour, no region; rCat with the empty region is the identity
+//@   requires len(a) == 0
+//@   ensures pcRegion(a) == rNone() && (forall x int :: rCat(rNone(), x) == x)
+
+//@ func (p Polygon) op
+//@   prop C01, C14
+//@   mode ufloat
+//@   requires [nonnil] p2 != nil && (typeof(p2) == *Bounds ==> p2.(*Bounds) != nil)
+//@   ensures [region] regionG(result) == pcOp(op, regionG(p), regionOf(p2))
+//@   using region_closed_rings(`pp.Construct(op, pp2)`, result)
+//@   ensures [fresh] fresh(result)
+//@   modifies nothing
+//@   assert [subject_region] `range p2.Polygons()` pcRegion(pp) == regionG(p)
+//@   using region_same_rings(p, pp)
+//@   loop 1 `for _, pp2x := range p2.Polygons()`
+//@     invariant [fresh] fresh(pp2) && !sameObj(pp2, `p2.Polygons()`) && 0 <= #1 && #1 <= len(`p2.Polygons()`)
+//@     invariant [steps] forall k int :: 0 <= k && k < len(`p2.Polygons()`) ==> prefR(p2, k+1) == rCat(prefR(p2, k), regionG(`p2.Polygons()`[k]))
+//@     invariant [members] pcRegion(pp2) == prefR(p2, #1)
+//@     using region_concat(pp2@pre, `pp2x.toPolyClip()`, pp2), region_same_rings(pp2x, `pp2x.toPolyClip()`), region_nil(pp2)
